@@ -139,6 +139,9 @@ pub fn events(ratios: &[&str]) -> Alphabet {
     evs.push(capret(off(b, -30), "X", "10", "101", "0"));
     evs.push(capret(off(b, -30), "X", "10", "500", "0"));
     evs.push(capret(off(b, 3), "X", "10", "500", "0"));
+    // larger than one lot's cost but smaller than two lots' (exhausted-lot shapes)
+    evs.push(capret(off(b, 3), "X", "10", "150", "0"));
+    evs.push(capret(off(b, 7), "X", "10", "200", "0"));
     for o in [-25i64, 2, 8] {
         for r in ratios {
             evs.push(split(off(b, o), "X", r));
@@ -211,10 +214,16 @@ pub fn interleaved(txs: &[Transaction]) -> Vec<Transaction> {
 pub fn interleaved_buys_first(txs: &[Transaction]) -> Vec<Transaction> {
     interleaved_by(txs, true)
 }
-/// Both interleavings that differ from the given order.
+/// Both interleavings, their reversals and the reversed canonical order, as far as they differ from the given order
+/// (the tool sorts by date stably, so only the order within a date matters).
 pub fn other_orders(txs: &[Transaction]) -> Vec<Vec<Transaction>> {
     let mut v = vec![];
-    for o in [interleaved(txs), interleaved_buys_first(txs)] {
+    let rev = |mut x: Vec<Transaction>| {
+        x.reverse();
+        x
+    };
+    let (a, b) = (interleaved(txs), interleaved_buys_first(txs));
+    for o in [a.clone(), b.clone(), rev(a), rev(b), rev(txs.to_vec())] {
         if o != txs && !v.contains(&o) {
             v.push(o);
         }
@@ -253,4 +262,24 @@ fn interleaved_by(txs: &[Transaction], buys_first: bool) -> Vec<Transaction> {
         }
     }
     out
+}
+
+/// `two-sec-fills` (C09): two securities, two SELL lines per security and day allowed, repurchases within 30 days.
+pub fn two_sec_fills() -> Alphabet {
+    let b = base();
+    let mut evs = vec![];
+    for (k, tk) in ["A", "B"].iter().enumerate() {
+        evs.push(buy(off(b, -40), tk, "100", &format!("{}", 10 + k), "1"));
+        for (i, o) in [0i64, 8].iter().enumerate() {
+            let d = off(b, *o);
+            evs.push(sell(d, tk, "10", &format!("{}", 20 + i + k), "0.5"));
+            evs.push(sell(d, tk, "5", &format!("{}", 22 + i + k), "0"));
+            evs.push(buy(d, tk, "15", &format!("{}", 12 + i + k), "1"));
+            evs.push(buy(d, tk, "7", &format!("{}", 14 + i + k), "0"));
+        }
+    }
+    let mut r = Rules::STRICT;
+    r.one_sell = false;
+    r.one_buy = false;
+    Alphabet::new("two-sec-fills", evs, r)
 }
